@@ -67,6 +67,12 @@ func (m *ServeMux) Handle(command string, handler redcon.Handler) {
 
 // ServeRESP dispatches the command to the handler.
 func (m *ServeMux) ServeRESP(conn redcon.Conn, cmd redcon.Command) {
+	if len(cmd.Args) == 0 {
+		// A client may form a bad message, prevent panicking.
+		conn.WriteError("ERR empty command")
+		return
+	}
+
 	command := strings.ToLower(util.BytesToString(cmd.Args[0]))
 
 	if handler, ok := m.handlers[command]; ok {
